@@ -242,6 +242,95 @@ class _Field:
         return self._v
 
 
+def _float_enum(tier, **_):
+    import struct
+    pats32 = [0x3F800000, 0xBF800000, 0x3F000000, 0x7F7FFFFF, 0x00000001, 0x80000000, 0x7F800000, 0x40490FDB, 0x00800000, 0x3FC00000, 0]
+    pats64 = [0x3FF0000000000000, 0xBFF0000000000000, 0x7FEFFFFFFFFFFFFF, 1, 0x8000000000000000, 0x400921FB54442D18, 0x4059000000000000, 0,
+              0x3FF8000000000000, 0x7FF0000000000000]
+    for p in pats32:
+        for n in range(1, 5):       # value_arg + 1 bytes: the high-order bytes; a shorter form only exists if the dropped bytes are 0
+            if p & ((1 << (8 * (4 - n))) - 1) == 0 or n == 4:
+                yield {"wide": False, "bits": p, "n": n}
+    for p in pats64:
+        for n in range(1, 9):
+            if p & ((1 << (8 * (8 - n))) - 1) == 0 or n == 8:
+                yield {"wide": True, "bits": p, "n": n}
+
+
+@unit("C04", covers=[(DEX, "EncodedValue.__init__")], level="bounded",
+      note="VALUE_FLOAT / VALUE_DOUBLE: boundary bit patterns in every legal encoded width (value_arg), payload = the high-order bytes")
+def float_values(U):
+    import struct
+    dex = U.mod(DEX)
+    g = U.given or {"wide": False, "bits": 0x3F800000, "n": 2}
+    U.drawn.update(g)
+    size = 8 if g["wide"] else 4
+    full = g["bits"].to_bytes(size, "little")
+    payload = full[size - g["n"]:]
+    data = bytes([((g["n"] - 1) << 5) | (0x11 if g["wide"] else 0x10)]) + payload + b"\x55"
+    buff = U.stream(data)
+    o = U.call(dex.EncodedValue, buff, U.cm())
+    U.ensures("does not raise", o.ok, exc=repr(o.exc))
+    if o.ok:
+        want = struct.unpack("<d" if g["wide"] else "<f", full)[0]
+        got = o.value.get_value()
+        U.ensures("the value is the IEEE754 number of the bit pattern zero-extended to the right",
+                  isinstance(got, float) and struct.pack("<d", got) == struct.pack("<d", want), got=repr(got), want=repr(want), **g)
+        U.ensures("exactly the payload is consumed", buff.tell() == 1 + g["n"])
+
+
+float_values.enumerate_inputs = lambda tier, **p: _float_enum(tier)
+
+STRING_VALUES = [None, "", "a", 'a"b', "back\\slash", "tab\there", "\x01\x7f", "é", "日本", "\U0001F600", "\ud83d", "nul\x00in", "it's", "\n"]
+
+
+@unit("C04", covers=[(DEC, "DvClass.get_source"), (DEC, "DvClass.get_source_ext"), (DEC, "get_field_ast")], level="bounded",
+      note="String constants (null, empty, quotes, backslashes, control characters, non-ASCII, supplementary, a lone surrogate) and "
+           "negative byte constants through get_source / get_source_ext / get_ast")
+def printed_string_and_ast(U):
+    dec, dex = U.mod(DEC), U.mod(DEX)
+    i = U.given.get("i", 0) if U.given else 0
+    U.drawn["i"] = i
+    v = STRING_VALUES[i]
+    ev = object.__new__(dex.EncodedValue)
+    ev.value = v
+    f = _Field("Ljava/lang/String;", ev)
+    c = object.__new__(dec.DvClass)
+    c.inner, c.package, c.superclass, c.prototype = False, "", None, "public class X"
+    c.interfaces, c.fields, c.methods, c.name, c.access, c.thisclass = [], [f], [], "X", ["public"], "LX;"
+    o = U.call(c.get_source)
+    U.ensures("get_source does not raise", o.ok, exc=repr(o.exc))
+    if o.ok:
+        mt = re.search(r" f = (.*);\n", o.value, re.S)
+        U.ensures("an initialiser is printed", mt is not None, src=o.value)
+        if mt:
+            lit = mt.group(1)
+            if v is None:
+                U.ensures("a null constant is printed as null (not as the empty string)", lit == "null", printed=lit)
+            else:
+                from specs import javalex
+                raw = v.encode("utf-16-le", "surrogatepass")
+                want = [int.from_bytes(raw[k:k + 2], "little") for k in range(0, len(raw), 2)]
+                r = javalex.lex([ord(ch) for ch in lit[1:-1]]) if len(lit) >= 2 and lit[0] == lit[-1] == '"' else None
+                ok = r is not None and all(bool(x) for x in r[1]) and r[0] == want
+                U.ensures("the printed text is one Java string literal denoting exactly the constant's UTF-16 units",
+                          ok, printed=lit, units=None if r is None else r[0], want=want)
+    # negative byte constants: the AST of the class can be built and carries the value
+    for bv in (-128, -1, 0, 127):
+        evb = object.__new__(dex.EncodedValue)
+        evb.value = bv
+        fb = _Field("B", evb)
+        fb.init_value = evb
+        fb.get_class_name = lambda: "LX;"
+        a = U.call(dec.get_field_ast, fb)
+        U.ensures("get_field_ast does not raise for a byte constant", a.ok, exc=repr(a.exc), value=bv)
+        if a.ok:
+            U.ensures("and carries the byte value", str(bv) in str(a.value["expr"]) or hex(bv) in str(a.value["expr"]), expr=str(a.value["expr"])[:80], value=bv)
+
+
+printed_string_and_ast.enumerate_inputs = lambda tier, **p: iter([{"i": k} for k in range(len(STRING_VALUES))])
+
+
 def _print_enum(tier, **_):
     for proto, (lo, hi) in {"B": (-128, 127), "S": (-32768, 32767), "I": (-2 ** 31, 2 ** 31 - 1), "J": (-2 ** 63, 2 ** 63 - 1),
                             "C": (0, 65535)}.items():
